@@ -43,6 +43,24 @@ def gen(rng, k):
         if not st["repeat"]:
             st["repeatIntervalSec"] = 0
         spec["steps"].append(st)
+    # base configuration: settings the DAG file does not mention are inherited from it
+    base = None
+    if rng.random() < 0.35:
+        base = {"maxActive": rng.choice([1, 2, 3]), "delaySec": rng.choice([0, 3]), "maxCleanUpSec": rng.choice([None, 9]),
+                "handlers": {h: "base-%s-%d" % (h, k) for h in ("success", "failure", "cancel", "exit") if rng.random() < 0.5}}
+        B = ["maxActiveRuns: %d" % base["maxActive"]]
+        if base["delaySec"]: B.append("delaySec: %d" % base["delaySec"])
+        if base["maxCleanUpSec"] is not None: B.append("maxCleanUpTimeSec: %d" % base["maxCleanUpSec"])
+        if base["handlers"]:
+            B.append("handlerOn:")
+            for h, cmd in base["handlers"].items():
+                B += ["  %s:" % h, "    command: %s" % q(cmd)]
+        spec["baseText"] = "\n".join(B) + "\n"
+        # what the loaded DAG must say: the DAG file's own value where it gives one, else the base's
+        spec["want"] = {"maxActive": spec["maxActive"] or base["maxActive"], "delaySec": spec["delaySec"] or base["delaySec"],
+                        # under dag.Load a clean-up time of 0 / absent means "inherit, else the default of 60 s"
+                        "maxCleanUpSec": spec["maxCleanUpSec"] or base["maxCleanUpSec"] or 60,
+                        "handlers": dict(base["handlers"], **spec["handlers"])}
     # YAML text, steps in listing order `order`
     L = []
     if spec["maxActive"]: L.append("maxActiveRuns: %d" % spec["maxActive"])
@@ -82,12 +100,17 @@ def gen(rng, k):
                 L += ["      - condition: %s" % q(c), "        expected: %s" % q(e)]
         if st["sig"]: L.append("    signalOnStop: %s" % q(st["sig"]))
         if st["output"]: L.append("    output: %s" % st["output"])
-    return {"id": "y%d" % k, "yaml": "\n".join(L) + "\n", "spec": spec, "listed": [s["name"] for s in listed]}
+    c = {"id": "y%d" % k, "yaml": "\n".join(L) + "\n", "spec": spec, "listed": [s["name"] for s in listed]}
+    if base is not None:
+        c["base"] = spec["baseText"]
+    return c
 
 
 def compare(c, r):
     """yields (field, detail)"""
-    sp = c["spec"]
+    sp = dict(c["spec"])
+    if "want" in sp:
+        sp.update(sp["want"])
     if r.get("err"):
         yield ("names", "a well-formed definition is not loaded: %s" % r["err"]); return
     if r["maxActive"] != sp["maxActive"]: yield ("maxActive", "maxActiveRuns %r loaded as %r" % (sp["maxActive"], r["maxActive"]))
@@ -113,7 +136,7 @@ def compare(c, r):
 def run(chk, prop, binp, n):
     rng = chk.rng
     cases = [gen(rng, k) for k in range(n)]
-    p = subprocess.run([binp, "yaml"], input="\n".join(json.dumps({"id": c["id"], "yaml": c["yaml"]}) for c in cases) + "\n",
+    p = subprocess.run([binp, "yaml"], input="\n".join(json.dumps({"id": c["id"], "yaml": c["yaml"], "base": c.get("base", "")}) for c in cases) + "\n",
                        stdout=subprocess.PIPE, stderr=subprocess.PIPE, text=True, timeout=600)
     res = {}
     for l in p.stdout.strip().split("\n"):
@@ -127,5 +150,5 @@ def run(chk, prop, binp, n):
         m += 1; chk.evaluations += 1
         for field, detail in compare(c, r):
             if prop in FIELD_PROPS.get(field, ()):
-                chk.violation("%s:definition-setting-not-loaded-as-written:%s" % (prop, field), detail, {"yaml_case": {"id": c["id"], "yaml": c["yaml"]}, "loaded": r})
+                chk.violation("%s:definition-setting-not-loaded-as-written:%s" % (prop, field), detail, {"yaml_case": {"id": c["id"], "yaml": c["yaml"], "base": c.get("base", "")}, "loaded": r})
     chk.stats = dict(getattr(chk, "stats", None) or {}, yaml_definitions=m)
